@@ -6,6 +6,7 @@ SchQ == { << C("n1", "int64") >>,
           << C("n2", "bool"), C("n1", "int8"), C("n3", "text") >> }
 SchT == SchQ \cup { << C("n3", "float64"), C("n1", "float64"), C("n2", "int64"), C("n4", "bool") >>,
                     << C("n1", "text"), C("n2", "text"), C("n3", "int8"), C("n4", "int64"), C("n5", "float64"), C("n6", "bool") >> }
+SchR == { << C("n1", "int64"), C("n2", "text") >> }
 NewQ == { C("n9", "int64"), C("n8", "text") }
 NewT == { C("n9", "int64"), C("n8", "text"), C("n7", "float64"), C("n6x", "bool"), C("n5x", "int8") }
 =============================================================================
